@@ -4,6 +4,8 @@ use std::collections::BTreeMap;
 
 use serde_json::Value;
 
+use super::config_loader::merge_values;
+
 #[derive(Debug, Clone, Default)]
 pub struct FlattenConfigObject {
     // ordered, so that rebuilding the nested json does not depend on hash order
@@ -20,6 +22,30 @@ impl FlattenConfigObject {
     pub fn to_emmyrc(&self) -> Value {
         to_emmyrc_json(self)
     }
+
+    /// Merge the config of a later file into this one: its values win, arrays are appended.
+    pub fn merge(&mut self, overlay: FlattenConfigObject) {
+        // a later value also replaces earlier values stored under a prefix or an extension of its key
+        self.config.retain(|base_key, _| {
+            !overlay
+                .config
+                .keys()
+                .any(|key| is_dotted_prefix(base_key, key) || is_dotted_prefix(key, base_key))
+        });
+        for (key, value) in overlay.config {
+            match self.config.get_mut(&key) {
+                Some(base_value) => merge_values(base_value, value),
+                None => {
+                    self.config.insert(key, value);
+                }
+            }
+        }
+    }
+}
+
+/// `prefix` names an ancestor of `key`, eg. `a.b` of `a.b.c`
+fn is_dotted_prefix(prefix: &str, key: &str) -> bool {
+    key.len() > prefix.len() && key.starts_with(prefix) && key.as_bytes()[prefix.len()] == b'.'
 }
 
 fn flatten_object(prefix: &str, val: &Value, config: &mut BTreeMap<String, Value>) {
